@@ -462,6 +462,9 @@ class EvalMixin(object):
             a = tm.mk_real(a)
         if isinstance(b, Fraction):
             b = tm.mk_real(b)
+        if isinstance(a, T) and isinstance(b, T) and isinstance(a.sort, tuple) and a.sort == b.sort and op in ('==', '!='):
+            e = tm.eq(a, b)
+            return e if op == '==' else tm.not_(e)
         if isinstance(a, T) or isinstance(b, T):
             if not (is_num(a) and is_num(b)):
                 if op == '==':
